@@ -106,8 +106,10 @@ class CFBinding:
 
     def new(self, arms, bin_name="none"):
         MAB = _mab_module().MAB
-        return MAB([self.lm[a] for a in arms], self.policy(bin_name), seed=self.seed, n_jobs=self.n_jobs,
-                   backend=self.backend)
+        given = [self.lm[a] for a in arms]
+        mab = MAB(given, self.policy(bin_name), seed=self.seed, n_jobs=self.n_jobs, backend=self.backend)
+        self.given_arms = (given, list(given), mab)
+        return mab
 
     # ---- arguments ------------------------------------------------------
     def reward(self, r):
@@ -479,6 +481,9 @@ class Replay:
                     self.report("caller.modified", "%s modified an object passed by the caller: %s" % (op, changed), skey, label)
             if op == "fit" and "fresh" in self.checks:
                 self.check_fresh(obj, twin, edge, label, skey)
+            if "argmax" in self.checks and op in ("warm_start", "add_arm", "remove_arm", "partial_fit", "fit") \
+                    and edge["s"].get("fitted") and edge["t"].get("fitted"):
+                self.check_predict_around(src, label, skey)
             known = self.objs.get(tkey)
             pure = self.pure.get(skey, True) and op in ("fit", "partial_fit", "predict", "predict_expectations")
             nfits = self.fits.get(skey, 0) + (1 if op == "fit" or (op == "partial_fit" and not edge["s"]["fitted"]) else 0)
@@ -551,13 +556,20 @@ class Replay:
         if not edges:
             return self
         init_key = self.key(edges[0]["s"])
-        obj, prev, trail = None, None, []
+        obj, prev, trail, sibling, given = None, None, [], None, None
         for edge in edges:
             if len(self.sig_counts) >= self.max_findings:
                 break
             skey = self.key(edge["s"])
             if skey == init_key and (obj is None or prev != skey):
                 obj, trail = b.new(edge["s"]["arms"], edge["s"].get("bin", "none")), []
+                # a second bandit built from the caller's very same list of arms: its arms are its own (C08, C04)
+                sibling, given = None, getattr(b, "given_arms", None)
+                if given is not None and given[2] is obj and "shape" in self.checks:
+                    try:
+                        sibling = type(obj)(given[0], obj.learning_policy, obj.neighborhood_policy, seed=3)
+                    except Exception:  # noqa
+                        sibling = None
             elif obj is None or prev != skey:
                 obj = None
                 continue
@@ -589,6 +601,10 @@ class Replay:
                 self.report(clause, detail + " (same object through the whole call sequence)", "__path__", label)
             if twin is not None:
                 self.check_query(obj, twin, label, value, before, "__path__", skip)
+            if sibling is not None and list(sibling.arms) != given[1]:
+                self.report("shape.sibling", "%s on one bandit changed the arms of a second bandit constructed from the same "
+                            "list object: %r, constructed with %r" % (op, list(sibling.arms), given[1]), "__path__", label)
+                sibling = None
             prev = self.key(edge["t"])
         self._trail = None
         return self
@@ -698,6 +714,25 @@ class Replay:
                 want = b.lm[res["arm"]]
                 if any(arm != want for arm in rows):
                     self.report("result.arm", "predict returned %s, specification says %r" % (rows, want), skey, label)
+
+    def check_predict_around(self, src, label, skey):
+        """C09 on ONE object: predict, then the state-changing call of this edge, then predict again - the second answer
+        must be the first maximiser of the expectations the same object reports (nothing remembered from the first)."""
+        b = self.b
+        q = {"op": "predict", "m": 1}
+        work = copy.deepcopy(src)
+        if b.call(work, q, self.feat)[0] != "ok" or b.call(work, label, self.feat)[0] != "ok":
+            return
+        twin = copy.deepcopy(work)
+        outcome, value = b.call(work, q, self.feat)
+        if outcome != "ok":
+            return
+        self.stats["predict_around"] = self.stats.get("predict_around", 0) + 1
+        checks, self.checks = self.checks, ("argmax",)
+        try:
+            self.check_query(work, twin, dict(q, around=label["op"]), value, None, skey, b.skip())
+        finally:
+            self.checks = checks
 
     def check_readonly(self, obj, twin, op, before, skey, label, skip):
         """C10: the deep snapshot (minus random streams) must be unchanged; if some internal representation did change
